@@ -985,6 +985,10 @@ func runC12(r *Run) {
 	data = append(data, map[string]interface{}{"A": 1.0, "B": "aaa", "LI": []interface{}{1.0, uint8(1), 1}}, map[string]interface{}{"A": uint8(1), "LI": []interface{}{uint64(1), 1.5}}, map[string]interface{}{"A": "1", "LI": []interface{}{"1", int8(1)}},
 		map[string]interface{}{"A": float32(1), "LI": []interface{}{float32(1), 1.0}}, map[string]interface{}{"A": json.Number("1"), "LI": []interface{}{json.Number("1"), true}})
 	exprs = append(exprs, "A != 1", "1 not in LI", "any LI as x { x == 1 }")
+	// body selectors of three to seven parts that begin with the bound name (path slices with spare capacity behind them)
+	data = append(data, map[string]interface{}{"items": []interface{}{map[string]interface{}{"A": map[string]interface{}{"B": 0}}, map[string]interface{}{"A": map[string]interface{}{"B": 1, "C": map[string]interface{}{"D": map[string]interface{}{"E": 1}}}}}},
+		map[string]interface{}{"items": []interface{}{map[string]interface{}{"A": map[string]interface{}{"B": 2}}}})
+	exprs = append(exprs, "any items as x { x.A.B == 1 }", "all items as _, x { x.A.B != 7 }", "any items as x { x.A.C.D.E == 1 }", "any items as i, x { x.A.B == 1 and i != 9 }", `any items as x { x["A"]["B"] == 1 }`)
 	for _, e := range exprs {
 		for _, os_ := range optsets {
 			fmt.Fprintf(os.Stderr, "CASE %s [%s]\n", e, os_.name)
